@@ -96,6 +96,11 @@ pub fn decode_signed_entry(bytes: &[u8]) -> Result<SignedEntry, postcard::Error>
     postcard::from_bytes(bytes)
 }
 
+/// The same, with a panic of the decoder reported as `None` instead of unwinding into the harness.
+pub fn decode_signed_entry_caught(bytes: &[u8]) -> Option<Result<SignedEntry, postcard::Error>> {
+    std::panic::catch_unwind(|| postcard::from_bytes(bytes)).ok()
+}
+
 /// Mirror of `ranger::MessagePart<SignedEntry>`.
 #[derive(Debug, Clone, PartialEq, Eq)]
 pub enum WPart {
